@@ -956,7 +956,7 @@ impl<'a> InK<'a> for MappedIn<'a> {
 fn map_tok<'a>(ts: &'a (char, SimpleSpan)) -> (&'a char, &'a SimpleSpan) {
     (&ts.0, &ts.1)
 }
-/// gapped layout: token i spans 3i+1..3i+2, end of input = 3n+1..3n+1
+/// gapped layout: token i spans 3i+1..3i+2, end-of-input span = 3n..3n+1 (empty matches there: 3n+1..3n+1)
 pub fn gapped_norm(n: usize, (a, b): (usize, usize)) -> Option<(usize, usize)> {
     if a > b || b > 3 * n + 1 {
         return None;
@@ -983,7 +983,9 @@ pub fn run_mapped<C: for<'x> Cfg<'x, MappedIn<'x>>>(job: &Job, gapped: bool, acc
         job,
         &|i| {
             let n = bufs[i].len();
-            let eoi: SimpleSpan = if gapped { (3 * n + 1..3 * n + 1).into() } else { (n..n).into() };
+            // gapped: a NON-zero-width end-of-input span (as handed in by the `map(e.span(), ..)` idiom); only its end
+            // is where an empty match at the end of the input lies
+            let eoi: SimpleSpan = if gapped { (3 * n..3 * n + 1).into() } else { (n..n).into() };
             bufs[i].as_slice().map(eoi, map_tok as MapFn)
         },
         &|_| (0, 0),
